@@ -239,8 +239,8 @@ Qed.
 
 (* the replacement entry built from the fresh stream n0 and the old one *)
 Definition carry_over (n0 old : stream) : stream :=
-  set_rdb (set_rdbx n0 {| index := index (s_rdbx old); wlen := wlen (s_rdbx n0); mask := mask (s_rdbx n0) |})
-          (s_rdb old).
+  set_pending (set_rdb (set_rdbx n0 {| index := index (s_rdbx old); wlen := wlen (s_rdbx n0); mask := mask (s_rdbx n0) |})
+                       (s_rdb old)) (s_pending_roc old).
 
 Theorem stream_update_specific_exit p w w' st :
   stream_update_specific p w = (w', inr st) -> h_fail (w_h w) = 0 ->
@@ -346,6 +346,24 @@ Proof.
   { intros ND. rewrite L, list_get_app, (list_get_remove_same _ _ ND), Hn, Z.eqb_refl. reflexivity. }
   congruence.
 Qed.
+
+(* a rollover counter imposed by srtp_stream_set_roc that no packet has taken up yet survives the re-key (fix 1db9411):
+   the next packet of the stream is still estimated with it (est_index_pending_spec, C16) *)
+Corollary stream_update_specific_keeps_pending_roc p w w' :
+  stream_update_specific p w = (w', inl tt) ->
+  NoDup (map s_ssrc (ss_list (w_s w))) ->
+  exists old n,
+    list_get (ss_list (w_s w)) (p_ssrc p) = Some old /\
+    list_get (ss_list (w_s w')) (p_ssrc p) = Some n /\
+    s_pending_roc n = s_pending_roc old /\ index (s_rdbx n) = index (s_rdbx old) /\ s_rdb n = s_rdb old.
+Proof.
+  intros H ND.
+  destruct (stream_update_specific_ok _ _ _ H) as (old & n0 & w1 & _ & G & _ & _ & Hn).
+  cbv zeta in Hn. destruct Hn as (_ & _ & Hi & Hr & _ & _ & _ & Hg & _).
+  exists old, (carry_over n0 old).
+  split; [exact G|]. split; [exact (Hg ND)|]. split; [reflexivity|]. split; [exact Hi|exact Hr].
+Qed.
+
 
 (* why uniqueness of the SSRC is needed for the last-but-one clause: srtp_stream_add accepts a
    second explicit stream with an SSRC already present (the first one wins on lookup); an update
